@@ -76,21 +76,21 @@ var shards = []shard{
 		Run: func(x *lib.Ctx, d *deps) { lib.RunO4Hs(x) }},
 	{Name: "obfs4-client-hs", T: "obfs4", Roles: []string{"client"}, NeedsDrv: true, Stage: "hs", Gens: lib.O4HsGens, Quick: 4800, Thorough: 60000, CutAll: 2,
 		Run: func(x *lib.Ctx, d *deps) { lib.RunO4Hs(x) }},
-	{Name: "obfs4-server-data", T: "obfs4", Roles: []string{"server"}, Stage: "data", Gens: lib.O4DataGens, Quick: 3600, Thorough: 48000, CutAll: 2, NeedsDrv: true, Iats: true,
+	{Name: "obfs4-server-data", T: "obfs4", Roles: []string{"server"}, Stage: "data", Gens: lib.O4DataGens, Quick: 2800, Thorough: 48000, CutAll: 2, NeedsDrv: true, Iats: true,
 		Run: func(x *lib.Ctx, d *deps) { lib.RunO4Data(x, d.parsePkt) }},
-	{Name: "obfs4-client-data", T: "obfs4", Roles: []string{"client"}, Stage: "data", Gens: lib.O4DataGens, Quick: 3600, Thorough: 48000, CutAll: 2, NeedsDrv: true, Iats: true,
+	{Name: "obfs4-client-data", T: "obfs4", Roles: []string{"client"}, Stage: "data", Gens: lib.O4DataGens, Quick: 2800, Thorough: 48000, CutAll: 2, NeedsDrv: true, Iats: true,
 		Run: func(x *lib.Ctx, d *deps) { lib.RunO4Data(x, d.parsePkt) }},
 	{Name: "obfs3-hs", T: "obfs3", Roles: both, NeedsDrv: true, Stage: "hs", Gens: append(append([]string{}, lib.SymHsGens...), lib.Obfs3KeyGens...), Quick: 3000, Thorough: 32000, CutAll: 1,
 		Run: func(x *lib.Ctx, d *deps) { lib.RunSymHs(x) }},
-	{Name: "obfs3-data", T: "obfs3", Roles: both, Stage: "data", Gens: lib.SymDataGens, Quick: 2400, Thorough: 24000, CutAll: 1,
+	{Name: "obfs3-data", T: "obfs3", Roles: both, Stage: "data", Gens: lib.SymDataGens, Quick: 2000, Thorough: 24000, CutAll: 1,
 		Run: func(x *lib.Ctx, d *deps) { lib.RunSymData(x) }},
 	{Name: "obfs2-hs", T: "obfs2", Roles: both, NeedsDrv: true, Stage: "hs", Gens: append(append([]string{}, lib.SymHsGens...), lib.Obfs2CraftGens...), Quick: 6000, Thorough: 80000, CutAll: 1,
 		Run: func(x *lib.Ctx, d *deps) { lib.RunSymHs(x) }},
-	{Name: "obfs2-data", T: "obfs2", Roles: both, Stage: "data", Gens: lib.SymDataGens, Quick: 4000, Thorough: 40000, CutAll: 1,
+	{Name: "obfs2-data", T: "obfs2", Roles: both, Stage: "data", Gens: lib.SymDataGens, Quick: 3000, Thorough: 40000, CutAll: 1,
 		Run: func(x *lib.Ctx, d *deps) { lib.RunSymData(x) }},
 	{Name: "scramblesuit-hs", T: "scramblesuit", Roles: []string{"client"}, NeedsDrv: true, Stage: "hs", Gens: lib.SSHsGens, Quick: 3000, Thorough: 32000, CutAll: 2,
 		Run: func(x *lib.Ctx, d *deps) { lib.RunSSHs(x) }},
-	{Name: "scramblesuit-data", T: "scramblesuit", Roles: []string{"client"}, NeedsDrv: true, Stage: "data", Gens: lib.SSDataGens, Quick: 3000, Thorough: 32000, CutAll: 2,
+	{Name: "scramblesuit-data", T: "scramblesuit", Roles: []string{"client"}, NeedsDrv: true, Stage: "data", Gens: lib.SSDataGens, Quick: 2400, Thorough: 32000, CutAll: 2,
 		Run: func(x *lib.Ctx, d *deps) { lib.RunSSData(x) }},
 	{Name: "socks5", T: "socks5", Roles: []string{"server"}, NeedsDrv: true, Stage: "hs", Gens: lib.SocksGens, Quick: 12000, Thorough: 160000, CutAll: 20,
 		Run: func(x *lib.Ctx, d *deps) { lib.RunSocks(x) }},
@@ -252,6 +252,18 @@ func runShard(r *vlib.Run, s *shard) {
 		for a := 0; a < lib.MeekOversizedCombos; a++ {
 			c := lib.Case{T: s.T, Role: "client", Stage: "data", Gen: "oversized", Seed: rng.U64() >> 1, A: a}
 			runCase(r, s, d, &c)
+		}
+	}
+	// ScrambleSuit: every padding-length boundary of the server response, followed by megabytes of
+	// genuine packets resp. garbage
+	if s.Name == "scramblesuit-hs" && !aborted {
+		// (every boundary length with both kinds of trailing traffic, then random lengths)
+		for a := 0; a < len(lib.SSPadBoundaries)+r.Scale(8, 60); a++ {
+			for b := 0; b < 2; b++ {
+				c := lib.Case{T: s.T, Role: "client", Stage: "hs", Gen: "pad-boundary", Seed: rng.U64() >> 1, A: a, B: b,
+					Chunk: []string{"whole", "mss", "rand", "bsplit"}[rng.Intn(4)], Cut: []string{"", "eof"}[rng.Intn(2)]}
+				runCase(r, s, d, &c)
+			}
 		}
 	}
 	// ScrambleSuit: the split inside the trailing MAC/mark at every offset, several padding lengths
